@@ -760,6 +760,11 @@ def gen_class(rng, names: Names, refs, tvs, *, private=False, depth=1, docs=True
                 body.append(f"self.{a1} = {v1}")
         init = Func("__init__", ps, ret_none=True, body="\n".join(body) or "pass")
         c.init = init
+        if docs:
+            # constructor parameters are documented in the class docstring (every second one; no random draw)
+            for k_, p_ in enumerate(ps):
+                if k_ % 2 == 0 and not p_.doc:
+                    p_.doc = f"Init value {p_.name} of {c.name}."
     for _ in range(rng.randrange(0, 4)):
         deco = rng.choice(["plain", "plain", "plain", "static", "classm", "prop"])
         c.methods.append(gen_func(rng, names, refs, tvs, private=rng.random() < 0.2, deco=deco, docs=docs, keywords=keywords,
@@ -772,7 +777,7 @@ def gen_class(rng, names: Names, refs, tvs, *, private=False, depth=1, docs=True
         # a method whose name merely ends in __init__, with a parameter that the class docstring documents as well (other text)
         p0 = next(p for p in c.init.params if p.doc)
         c.methods.append(Func("re__init__", [Param(p0.name, "pos", Ann("int"), doc=f"Value for the re-initialisation of {c.name}.")],
-                              ret=Ann("int"), doc=f"Doc of re__init__ of {c.name}."))
+                              ret=Ann("int"), doc=f"Doc of re__init__. Belongs to {c.name}."))
     return c
 
 
